@@ -1,4 +1,536 @@
 import A2lVerif.Model.Encoding
 /-! helper lemmas for C17 -/
 namespace A2l.Enc
+
+theorem char_range (c : Char) : c.toNat < 0xD800 ∨ (0xDFFF < c.toNat ∧ c.toNat < 0x110000) := by
+  have h := c.valid
+  exact h
+
+theorem validScalar_toNat (c : Char) : validScalar c.toNat = true := by
+  simp only [validScalar, Bool.or_eq_true, decide_eq_true_eq, Bool.and_eq_true]
+  rcases char_range c with h | ⟨h1, h2⟩
+  · left; exact h
+  · right; exact ⟨by omega, h2⟩
+
+theorem toNat_toUInt8_mod (n : Nat) : (n % 256).toUInt8.toNat = n % 256 := by
+  simp [Nat.toUInt8, UInt8.toNat_ofNat']
+
+theorem u32of_bytes32 (be : Bool) (n : Nat) (h : n < 4294967296) :
+    (match bytes32 be n with
+     | [a, b, c, d] => (if be then u32of a b c d else u32of d c b a) = n
+     | _ => False) := by
+  cases be <;> simp only [bytes32, u32of, toNat_toUInt8_mod, Bool.false_eq_true, ↓reduceIte] <;> omega
+
+theorem decode32_bytes32_append (be : Bool) (n : Nat) (h : n < 4294967296) (r : Bytes) :
+    decode32 be (bytes32 be n ++ r) =
+      if validScalar n then (decode32 be r).map (Char.ofNat n :: ·) else none := by
+  have hb := u32of_bytes32 be n h
+  cases be <;>
+    simp only [bytes32, Bool.false_eq_true, ↓reduceIte, List.cons_append, List.nil_append, decode32] at hb ⊢ <;>
+    simp only [hb]
+
+theorem decode32_roundtrip (be : Bool) (s : List Char) : decode32 be (encode32 be s) = some s := by
+  induction s with
+  | nil => simp [encode32, decode32]
+  | cons c s ih =>
+    have hlt : c.toNat < 4294967296 := by
+      rcases char_range c with h | ⟨_, h2⟩ <;> omega
+    have hcons : encode32 be (c :: s) = bytes32 be c.toNat ++ encode32 be s := by simp [encode32]
+    rw [hcons, decode32_bytes32_append be _ hlt, validScalar_toNat, ih]
+    simp
+
+theorem units16_bytes16_append (be : Bool) (u : Nat) (h : u < 65536) (r : Bytes) :
+    units16 be (bytes16 be u ++ r) = u :: units16 be r := by
+  cases be <;> simp only [bytes16, Bool.false_eq_true, ↓reduceIte, List.cons_append, List.nil_append,
+    units16, toNat_toUInt8_mod, List.cons.injEq, and_true] <;> omega
+
+theorem units16_flatMap (be : Bool) (us : List Nat) (h : ∀ u ∈ us, u < 65536) :
+    units16 be (us.flatMap (bytes16 be)) = us := by
+  induction us with
+  | nil => simp [units16]
+  | cons u us ih =>
+    simp only [List.flatMap_cons]
+    rw [units16_bytes16_append be u (h u (by simp)), ih (fun v hv => h v (by simp [hv]))]
+
+theorem enc16_lt (c : Char) : ∀ u ∈ enc16 c, u < 65536 := by
+  intro u hu
+  unfold enc16 at hu
+  by_cases hlt : c.toNat < 0x10000
+  · rw [if_pos hlt] at hu
+    have : u = c.toNat := by simpa using hu
+    omega
+  · rw [if_neg hlt] at hu
+    have hr := char_range c
+    have : u = 0xD800 + (c.toNat - 0x10000) / 1024 ∨ u = 0xDC00 + (c.toNat - 0x10000) % 1024 := by
+      simp only [List.mem_cons, List.not_mem_nil, or_false] at hu; exact hu
+    rcases hr with hr | ⟨_, hr⟩
+    · omega
+    · rcases this with h | h
+      · rw [h]; omega
+      · rw [h]; omega
+
+theorem fromUtf16_cons_bmp (u : Nat) (r : List Nat) (h : u < 0xD800 ∨ 0xE000 ≤ u) :
+    fromUtf16 (u :: r) = (fromUtf16 r).map (Char.ofNat u :: ·) := by
+  rw [fromUtf16.eq_def]; simp only [if_pos h]
+
+theorem fromUtf16_cons_pair (u l : Nat) (r : List Nat) (h1 : ¬ (u < 0xD800 ∨ 0xE000 ≤ u)) (h2 : u < 0xDC00)
+    (h3 : 0xDC00 ≤ l ∧ l < 0xE000) :
+    fromUtf16 (u :: l :: r) =
+      (fromUtf16 r).map (Char.ofNat (0x10000 + (u - 0xD800) * 1024 + (l - 0xDC00)) :: ·) := by
+  rw [fromUtf16.eq_def]; simp only [if_neg h1, if_pos h2, h3, and_self, ↓reduceIte]
+
+theorem fromUtf16_enc16_append (c : Char) (r : List Nat) :
+    fromUtf16 (enc16 c ++ r) = (fromUtf16 r).map (c :: ·) := by
+  unfold enc16
+  have hr := char_range c
+  by_cases hlt : c.toNat < 0x10000
+  · rw [if_pos hlt]
+    simp only [List.cons_append, List.nil_append]
+    rw [fromUtf16_cons_bmp _ _ (by omega), Char.ofNat_toNat]
+  · rw [if_neg hlt]
+    simp only [List.cons_append, List.nil_append]
+    rw [fromUtf16_cons_pair _ _ _ (by omega) (by omega) (by omega)]
+    have : 0x10000 + (0xD800 + (c.toNat - 0x10000) / 1024 - 0xD800) * 1024 +
+        (0xDC00 + (c.toNat - 0x10000) % 1024 - 0xDC00) = c.toNat := by omega
+    rw [this, Char.ofNat_toNat]
+
+theorem fromUtf16_flatMap (s : List Char) : fromUtf16 (s.flatMap enc16) = some s := by
+  induction s with
+  | nil => simp [fromUtf16]
+  | cons c s ih => simp only [List.flatMap_cons]; rw [fromUtf16_enc16_append, ih]; simp
+
+theorem decode16_roundtrip (be : Bool) (s : List Char) :
+    fromUtf16 (units16 be (encode16 be s)) = some s := by
+  unfold encode16
+  rw [units16_flatMap be _ (by
+    intro u hu
+    simp only [List.mem_flatMap] at hu
+    obtain ⟨c, _, hc⟩ := hu
+    exact enc16_lt c u hc)]
+  exact fromUtf16_flatMap s
+
+theorem length_bytes32 (be : Bool) (n : Nat) : (bytes32 be n).length = 4 := by
+  cases be <;> simp [bytes32]
+
+theorem length_encode32 (be : Bool) (s : List Char) : (encode32 be s).length = 4 * s.length := by
+  induction s with
+  | nil => simp [encode32]
+  | cons c s ih =>
+    have hcons : encode32 be (c :: s) = bytes32 be c.toNat ++ encode32 be s := by simp [encode32]
+    rw [hcons, List.length_append, length_bytes32, ih]; simp; omega
+
+theorem ofNat_toUInt8_eq_zero_iff (n : Nat) (h : n < 256) : (n.toUInt8 = 0) ↔ n = 0 := by
+  constructor
+  · intro h0
+    have := congrArg UInt8.toNat h0
+    simp [Nat.toUInt8, UInt8.toNat_ofNat'] at this
+    omega
+  · intro h0; subst h0; rfl
+
+theorem try32_encode32_be (s : List Char) (hs : A2lText s) : try32 (encode32 true s) = some s := by
+  obtain ⟨c, r, rfl, hpos, hlt⟩ := hs.head
+  have hlen := length_encode32 true (c :: r)
+  have hcons : encode32 true (c :: r) = bytes32 true c.toNat ++ encode32 true r := by simp [encode32]
+  unfold try32
+  rw [if_pos (by rw [hlen]; simp; omega)]
+  have hd := decode32_roundtrip true (c :: r)
+  rw [hcons] at hd ⊢
+  simp only [bytes32, ↓reduceIte, List.cons_append, List.nil_append] at hd ⊢
+  have h3 : c.toNat / 16777216 % 256 = 0 := by omega
+  have h2 : c.toNat / 65536 % 256 = 0 := by omega
+  have h0 : c.toNat % 256 ≠ 0 := by omega
+  have e3 : (c.toNat / 16777216 % 256).toUInt8 = 0 := by rw [h3]; rfl
+  have e2 : (c.toNat / 65536 % 256).toUInt8 = 0 := by rw [h2]; rfl
+  have e0 : (c.toNat % 256).toUInt8 ≠ 0 := by
+    intro h; exact h0 ((ofNat_toUInt8_eq_zero_iff _ (by omega)).1 h)
+  rw [if_pos ⟨e3, e2, e0⟩]
+  exact hd
+
+/-! ### constants -/
+
+theorem bom_toNat : bom.toNat = 0xFEFF := by decide
+
+theorem toNat_toUInt8 (n : Nat) (h : n < 256) : n.toUInt8.toNat = n := by
+  simp [Nat.toUInt8, UInt8.toNat_ofNat']; omega
+
+theorem encode32_cons (be : Bool) (c : Char) (s : List Char) :
+    encode32 be (c :: s) = bytes32 be c.toNat ++ encode32 be s := by simp [encode32]
+
+theorem encode16_cons (be : Bool) (c : Char) (s : List Char) :
+    encode16 be (c :: s) = (enc16 c).flatMap (bytes16 be) ++ encode16 be s := by simp [encode16]
+
+theorem encode8_cons (c : Char) (s : List Char) :
+    encode8 (c :: s) = String.utf8EncodeChar c ++ encode8 s := by simp [encode8]
+
+/-! ### generic failure of the detection tests -/
+
+theorem try32_eq_none (b : Bytes)
+    (h : ∀ b0 b1 b2 b3 r, b = b0 :: b1 :: b2 :: b3 :: r →
+      ¬ (b0 = 0 ∧ b1 = 0 ∧ b3 ≠ 0) ∧ ¬ (b0 ≠ 0 ∧ b2 = 0 ∧ b3 = 0)) : try32 b = none := by
+  unfold try32
+  split
+  · match b, h with
+    | b0 :: b1 :: b2 :: b3 :: r, h =>
+      obtain ⟨h1, h2⟩ := h b0 b1 b2 b3 r rfl
+      simp only [if_neg h1, if_neg h2]
+    | [], _ | [_], _ | [_, _], _ | [_, _, _], _ => rfl
+  · rfl
+
+theorem try16_eq_none (b : Bytes)
+    (h : ∀ b0 b1 r, b = b0 :: b1 :: r →
+      ¬ ((b0 = 0 ∧ b1 ≠ 0) ∨ (b0 = 0xfe ∧ b1 = 0xff)) ∧ ¬ ((b0 ≠ 0 ∧ b1 = 0) ∨ (b0 = 0xff ∧ b1 = 0xfe))) :
+    try16 b = none := by
+  unfold try16
+  split
+  · match b, h with
+    | b0 :: b1 :: r, h =>
+      obtain ⟨h1, h2⟩ := h b0 b1 r rfl
+      simp only [if_neg h1, if_neg h2]
+    | [], _ | [_], _ => rfl
+  · rfl
+
+/-! ### UTF-8 -/
+
+theorem utf8_roundtrip (s : List Char) : utf8? (encode8 s) = some s := by
+  have h := List.utf8Decode?_utf8Encode (l := s)
+  have e : ByteArray.mk (encode8 s).toArray = s.utf8Encode := by
+    apply ByteArray.ext
+    simp [List.utf8Encode, encode8]
+  unfold utf8?
+  rw [e, h]; simp
+
+theorem uint8_ne_zero_of_toNat {x : UInt8} (h : x.toNat ≠ 0) : x ≠ 0 := by
+  intro h0; subst h0; exact h rfl
+
+theorem utf8EncodeChar_ascii (c : Char) (h : c.toNat < 128) :
+    String.utf8EncodeChar c = [c.toNat.toUInt8] := by
+  have h' : c.val.toNat ≤ 127 := by have : c.val.toNat = c.toNat := rfl; omega
+  unfold String.utf8EncodeChar
+  simp only [if_pos h']
+  rfl
+
+theorem utf8EncodeChar_ne_zero (c : Char) (h : c.toNat ≠ 0) : ∀ x ∈ String.utf8EncodeChar c, x ≠ 0 := by
+  have hv : c.val.toNat = c.toNat := rfl
+  intro x hx
+  apply uint8_ne_zero_of_toNat
+  unfold String.utf8EncodeChar at hx
+  simp only [hv] at hx
+  split at hx
+  · simp only [List.mem_cons, List.not_mem_nil, or_false] at hx
+    subst hx; simp only [UInt8.toNat_ofNat']; omega
+  · split at hx
+    · simp only [List.mem_cons, List.not_mem_nil, or_false] at hx
+      rcases hx with rfl | rfl <;> simp only [UInt8.toNat_ofNat'] <;> omega
+    · split at hx
+      · simp only [List.mem_cons, List.not_mem_nil, or_false] at hx
+        rcases hx with rfl | rfl | rfl <;> simp only [UInt8.toNat_ofNat'] <;> omega
+      · simp only [List.mem_cons, List.not_mem_nil, or_false] at hx
+        rcases hx with rfl | rfl | rfl | rfl <;> simp only [UInt8.toNat_ofNat'] <;> omega
+
+theorem encode8_ne_zero (s : List Char) (h : ∀ c ∈ s, c.toNat ≠ 0) : ∀ x ∈ encode8 s, x ≠ 0 := by
+  intro x hx
+  simp only [encode8, List.mem_flatMap] at hx
+  obtain ⟨c, hc, hxc⟩ := hx
+  exact utf8EncodeChar_ne_zero c (h c hc) x hxc
+
+theorem utf8EncodeChar_bom : String.utf8EncodeChar bom = [0xEF, 0xBB, 0xBF] := by decide
+
+theorem try32_none_of_nonzero (b : Bytes) (h : ∀ x ∈ b, x ≠ 0) : try32 b = none := by
+  apply try32_eq_none
+  intro b0 b1 b2 b3 r hb
+  subst hb
+  have h0 := h b0 (by simp)
+  have h3 := h b3 (by simp)
+  exact ⟨fun hh => h0 hh.1, fun hh => h3 hh.2.2⟩
+
+theorem try16_none_of_nonzero (b0 : UInt8) (r : Bytes) (h : ∀ x ∈ b0 :: r, x ≠ 0)
+    (hfe : b0 ≠ 0xfe) (hff : b0 ≠ 0xff) : try16 (b0 :: r) = none := by
+  apply try16_eq_none
+  intro c0 c1 r' hb
+  simp only [List.cons.injEq] at hb
+  obtain ⟨rfl, rfl⟩ := hb
+  have h0 := h b0 (by simp)
+  have h1 := h c1 (by simp)
+  refine ⟨?_, ?_⟩
+  · rintro (⟨a, _⟩ | ⟨a, _⟩)
+    · exact h0 a
+    · exact hfe a
+  · rintro (⟨_, a⟩ | ⟨a, _⟩)
+    · exact h1 a
+    · exact hff a
+
+theorem decodeRaw_of_utf8 (b : Bytes) (s : List Char) (h32 : try32 b = none) (h16 : try16 b = none)
+    (h8 : utf8? b = some s) : decodeRaw b = s := by
+  simp only [decodeRaw, h32, h16, h8]
+
+theorem decodeRaw_of_try16 (b : Bytes) (s : List Char) (h32 : try32 b = none) (h16 : try16 b = some s) :
+    decodeRaw b = s := by
+  simp only [decodeRaw, h32, h16]
+
+theorem decodeRaw_of_try32 (b : Bytes) (s : List Char) (h32 : try32 b = some s) : decodeRaw b = s := by
+  simp only [decodeRaw, h32]
+
+theorem ascii_byte (n : Nat) (hpos : 0 < n) (hlt : n < 128) :
+    n.toUInt8 ≠ 0 ∧ n.toUInt8 ≠ 0xfe ∧ n.toUInt8 ≠ 0xff := by
+  have ht := toNat_toUInt8 n (by omega)
+  refine ⟨?_, ?_, ?_⟩ <;> intro h <;> rw [h] at ht <;> simp at ht <;> omega
+
+theorem decodeRaw_utf8 (s : List Char) (hs : A2lText s) : decodeRaw (encode8 s) = s := by
+  obtain ⟨c, r, rfl, hpos, hlt⟩ := hs.head
+  have hnz := encode8_ne_zero _ hs.nonul
+  obtain ⟨_, hfe, hff⟩ := ascii_byte c.toNat hpos hlt
+  apply decodeRaw_of_utf8 _ _ (try32_none_of_nonzero _ hnz) _ (utf8_roundtrip _)
+  rw [encode8_cons, utf8EncodeChar_ascii c hlt] at hnz ⊢
+  exact try16_none_of_nonzero _ _ hnz hfe hff
+
+theorem decodeRaw_utf8Bom (s : List Char) (hs : A2lText s) : decodeRaw (encode8 (bom :: s)) = bom :: s := by
+  have hnz := encode8_ne_zero (bom :: s) (by
+    intro c hc
+    rcases List.mem_cons.1 hc with rfl | hc
+    · rw [bom_toNat]; decide
+    · exact hs.nonul c hc)
+  apply decodeRaw_of_utf8 _ _ (try32_none_of_nonzero _ hnz) _ (utf8_roundtrip _)
+  rw [encode8_cons, utf8EncodeChar_bom] at hnz ⊢
+  exact try16_none_of_nonzero _ _ hnz (by decide) (by decide)
+
+/-! ### UTF-16 -/
+
+theorem length_bytes16 (be : Bool) (u : Nat) : (bytes16 be u).length = 2 := by
+  cases be <;> simp [bytes16]
+
+theorem length_flatMap_bytes16 (be : Bool) (us : List Nat) : (us.flatMap (bytes16 be)).length = 2 * us.length := by
+  induction us with
+  | nil => simp
+  | cons u us ih => simp only [List.flatMap_cons, List.length_append, length_bytes16, ih, List.length_cons]; omega
+
+theorem length_encode16_even (be : Bool) (s : List Char) : (encode16 be s).length % 2 = 0 := by
+  unfold encode16; rw [length_flatMap_bytes16]; omega
+
+theorem units16_encode16 (be : Bool) (s : List Char) : units16 be (encode16 be s) = s.flatMap enc16 := by
+  unfold encode16
+  exact units16_flatMap be _ (by
+    intro u hu
+    simp only [List.mem_flatMap] at hu
+    obtain ⟨c, _, hc⟩ := hu
+    exact enc16_lt c u hc)
+
+theorem enc16_ne_zero (c : Char) (h : c.toNat ≠ 0) : ∀ u ∈ enc16 c, u ≠ 0 := by
+  intro u hu
+  unfold enc16 at hu
+  split at hu
+  · simp only [List.mem_cons, List.not_mem_nil, or_false] at hu; omega
+  · simp only [List.mem_cons, List.not_mem_nil, or_false] at hu; omega
+
+/-- the first code unit of the UTF-16 encoding of a NUL-free text is not `00 00` -/
+theorem encode16_head_ne_zero (be : Bool) (s : List Char) (h : ∀ c ∈ s, c.toNat ≠ 0) (b2 b3 : UInt8) (t : Bytes)
+    (he : encode16 be s = b2 :: b3 :: t) : ¬ (b2 = 0 ∧ b3 = 0) := by
+  rintro ⟨rfl, rfl⟩
+  have hu := units16_encode16 be s
+  rw [he] at hu
+  have hmem : (0 : Nat) ∈ s.flatMap enc16 := by
+    rw [← hu]; cases be <;> simp [units16]
+  simp only [List.mem_flatMap] at hmem
+  obtain ⟨c, hc, hz⟩ := hmem
+  exact enc16_ne_zero c (h c hc) 0 hz rfl
+
+theorem enc16_ascii (c : Char) (h : c.toNat < 128) : enc16 c = [c.toNat] := by
+  unfold enc16; rw [if_pos (by omega)]
+
+theorem enc16_bom : enc16 bom = [0xFEFF] := by
+  unfold enc16; rw [bom_toNat]; rfl
+
+theorem bytes16_ascii (be : Bool) (n : Nat) (h : n < 128) :
+    bytes16 be n = if be then [0, n.toUInt8] else [n.toUInt8, 0] := by
+  have h1 : n / 256 % 256 = 0 := by omega
+  have h2 : n % 256 = n := by omega
+  unfold bytes16; rw [h1, h2]; rfl
+
+theorem bytes16_bom (be : Bool) : bytes16 be 0xFEFF = if be then [0xFE, 0xFF] else [0xFF, 0xFE] := by
+  cases be <;> decide
+
+theorem encode16_ascii_cons (be : Bool) (c : Char) (r : List Char) (h : c.toNat < 128) :
+    encode16 be (c :: r) = (if be then [0, c.toNat.toUInt8] else [c.toNat.toUInt8, 0]) ++ encode16 be r := by
+  rw [encode16_cons, enc16_ascii c h]
+  simp only [List.flatMap_cons, List.flatMap_nil, List.append_nil, bytes16_ascii be _ h]
+
+theorem encode16_bom_cons (be : Bool) (s : List Char) :
+    encode16 be (bom :: s) = (if be then [0xFE, 0xFF] else [0xFF, 0xFE]) ++ encode16 be s := by
+  rw [encode16_cons, enc16_bom]
+  simp only [List.flatMap_cons, List.flatMap_nil, List.append_nil, bytes16_bom]
+
+theorem try16_be (b0 b1 : UInt8) (r : Bytes) (hlen : r.length % 2 = 0)
+    (hc : (b0 = 0 ∧ b1 ≠ 0) ∨ (b0 = 0xfe ∧ b1 = 0xff)) :
+    try16 (b0 :: b1 :: r) = fromUtf16 (units16 true (b0 :: b1 :: r)) := by
+  unfold try16
+  rw [if_pos (by simp only [List.length_cons]; omega)]
+  simp only [if_pos hc]
+
+theorem try16_le (b0 b1 : UInt8) (r : Bytes) (hlen : r.length % 2 = 0)
+    (hn : ¬ ((b0 = 0 ∧ b1 ≠ 0) ∨ (b0 = 0xfe ∧ b1 = 0xff)))
+    (hc : (b0 ≠ 0 ∧ b1 = 0) ∨ (b0 = 0xff ∧ b1 = 0xfe)) :
+    try16 (b0 :: b1 :: r) = fromUtf16 (units16 false (b0 :: b1 :: r)) := by
+  unfold try16
+  rw [if_pos (by simp only [List.length_cons]; omega)]
+  simp only [if_neg hn, if_pos hc]
+
+theorem decodeRaw_utf16be (s : List Char) (hs : A2lText s) : decodeRaw (encode16 true s) = s := by
+  obtain ⟨c, r, rfl, hpos, hlt⟩ := hs.head
+  obtain ⟨h0, hfe, hff⟩ := ascii_byte c.toNat hpos hlt
+  have hd := decode16_roundtrip true (c :: r)
+  have he := encode16_ascii_cons true c r hlt
+  simp only [if_true, List.cons_append, List.nil_append] at he
+  rw [he] at hd ⊢
+  apply decodeRaw_of_try16
+  · apply try32_eq_none
+    intro b0 b1 b2 b3 t hb
+    simp only [List.cons.injEq] at hb
+    obtain ⟨rfl, rfl, _⟩ := hb
+    exact ⟨fun hh => h0 hh.2.1, fun hh => hh.1 rfl⟩
+  · rw [try16_be _ _ _ (length_encode16_even true r) (Or.inl ⟨rfl, h0⟩)]
+    exact hd
+
+theorem decodeRaw_utf16le (s : List Char) (hs : A2lText s) : decodeRaw (encode16 false s) = s := by
+  obtain ⟨c, r, rfl, hpos, hlt⟩ := hs.head
+  obtain ⟨h0, hfe, hff⟩ := ascii_byte c.toNat hpos hlt
+  have hd := decode16_roundtrip false (c :: r)
+  have he := encode16_ascii_cons false c r hlt
+  simp only [Bool.false_eq_true, if_false, List.cons_append, List.nil_append] at he
+  rw [he] at hd ⊢
+  apply decodeRaw_of_try16
+  · apply try32_eq_none
+    intro b0 b1 b2 b3 t hb
+    simp only [List.cons.injEq] at hb
+    obtain ⟨rfl, rfl, hb⟩ := hb
+    have hnn : ∀ c ∈ r, c.toNat ≠ 0 := fun c hc => hs.nonul c (by simp [hc])
+    have := encode16_head_ne_zero false r hnn b2 b3 t hb
+    exact ⟨fun hh => h0 hh.1, fun hh => this hh.2⟩
+  · rw [try16_le _ _ _ (length_encode16_even false r) _ (Or.inl ⟨h0, rfl⟩)]
+    · exact hd
+    · rintro (⟨a, _⟩ | ⟨a, _⟩)
+      · exact h0 a
+      · exact hfe a
+
+theorem decodeRaw_utf16beBom (s : List Char) (hs : A2lText s) :
+    decodeRaw (encode16 true (bom :: s)) = bom :: s := by
+  obtain ⟨c, r, rfl, hpos, hlt⟩ := hs.head
+  obtain ⟨h0, hfe, hff⟩ := ascii_byte c.toNat hpos hlt
+  have hd := decode16_roundtrip true (bom :: c :: r)
+  have he : encode16 true (bom :: c :: r) = 0xFE :: 0xFF :: 0 :: c.toNat.toUInt8 :: encode16 true r := by
+    rw [encode16_bom_cons, encode16_ascii_cons true c r hlt]; rfl
+  have hlen : (0 :: c.toNat.toUInt8 :: encode16 true r).length % 2 = 0 := by
+    have := length_encode16_even true r
+    simp only [List.length_cons]; omega
+  rw [he] at hd ⊢
+  apply decodeRaw_of_try16
+  · apply try32_eq_none
+    intro b0 b1 b2 b3 t hb
+    simp only [List.cons.injEq] at hb
+    obtain ⟨rfl, rfl, rfl, rfl, _⟩ := hb
+    exact ⟨fun hh => by simp at hh, fun hh => h0 hh.2.2⟩
+  · rw [try16_be _ _ _ hlen (Or.inr ⟨rfl, rfl⟩)]
+    exact hd
+
+theorem decodeRaw_utf16leBom (s : List Char) (hs : A2lText s) :
+    decodeRaw (encode16 false (bom :: s)) = bom :: s := by
+  obtain ⟨c, r, rfl, hpos, hlt⟩ := hs.head
+  obtain ⟨h0, hfe, hff⟩ := ascii_byte c.toNat hpos hlt
+  have hd := decode16_roundtrip false (bom :: c :: r)
+  have he : encode16 false (bom :: c :: r) = 0xFF :: 0xFE :: c.toNat.toUInt8 :: 0 :: encode16 false r := by
+    rw [encode16_bom_cons, encode16_ascii_cons false c r hlt]; rfl
+  have hlen : (c.toNat.toUInt8 :: 0 :: encode16 false r).length % 2 = 0 := by
+    have := length_encode16_even false r
+    simp only [List.length_cons]; omega
+  rw [he] at hd ⊢
+  apply decodeRaw_of_try16
+  · apply try32_eq_none
+    intro b0 b1 b2 b3 t hb
+    simp only [List.cons.injEq] at hb
+    obtain ⟨rfl, rfl, rfl, rfl, _⟩ := hb
+    exact ⟨fun hh => by simp at hh, fun hh => h0 hh.2.1⟩
+  · rw [try16_le _ _ _ hlen (by simp) (Or.inr ⟨rfl, rfl⟩)]
+    exact hd
+
+/-! ### UTF-32 -/
+
+theorem length_encode32_mod (be : Bool) (s : List Char) : (encode32 be s).length % 4 = 0 := by
+  rw [length_encode32]; omega
+
+theorem bytes32_ascii (be : Bool) (n : Nat) (h : n < 128) :
+    bytes32 be n = if be then [0, 0, 0, n.toUInt8] else [n.toUInt8, 0, 0, 0] := by
+  have h3 : n / 16777216 % 256 = 0 := by omega
+  have h2 : n / 65536 % 256 = 0 := by omega
+  have h1 : n / 256 % 256 = 0 := by omega
+  have h0 : n % 256 = n := by omega
+  unfold bytes32; simp only [h3, h2, h1, h0]; rfl
+
+theorem bytes32_bom (be : Bool) : bytes32 be 0xFEFF = if be then [0, 0, 0xFE, 0xFF] else [0xFF, 0xFE, 0, 0] := by
+  cases be <;> decide
+
+theorem try32_be (b0 b1 b2 b3 : UInt8) (r : Bytes) (hlen : r.length % 4 = 0)
+    (hc : b0 = 0 ∧ b1 = 0 ∧ b3 ≠ 0) :
+    try32 (b0 :: b1 :: b2 :: b3 :: r) = decode32 true (b0 :: b1 :: b2 :: b3 :: r) := by
+  unfold try32
+  rw [if_pos (by simp only [List.length_cons]; omega)]
+  simp only [if_pos hc]
+
+theorem try32_le (b0 b1 b2 b3 : UInt8) (r : Bytes) (hlen : r.length % 4 = 0)
+    (hn : ¬ (b0 = 0 ∧ b1 = 0 ∧ b3 ≠ 0)) (hc : b0 ≠ 0 ∧ b2 = 0 ∧ b3 = 0) :
+    try32 (b0 :: b1 :: b2 :: b3 :: r) = decode32 false (b0 :: b1 :: b2 :: b3 :: r) := by
+  unfold try32
+  rw [if_pos (by simp only [List.length_cons]; omega)]
+  simp only [if_neg hn, if_pos hc]
+
+theorem decodeRaw_utf32be (s : List Char) (hs : A2lText s) : decodeRaw (encode32 true s) = s := by
+  obtain ⟨c, r, rfl, hpos, hlt⟩ := hs.head
+  obtain ⟨h0, _, _⟩ := ascii_byte c.toNat hpos hlt
+  have hd := decode32_roundtrip true (c :: r)
+  have he : encode32 true (c :: r) = 0 :: 0 :: 0 :: c.toNat.toUInt8 :: encode32 true r := by
+    rw [encode32_cons, bytes32_ascii true _ hlt]; rfl
+  rw [he] at hd ⊢
+  apply decodeRaw_of_try32
+  rw [try32_be _ _ _ _ _ (length_encode32_mod true r) ⟨rfl, rfl, h0⟩]
+  exact hd
+
+theorem decodeRaw_utf32le (s : List Char) (hs : A2lText s) : decodeRaw (encode32 false s) = s := by
+  obtain ⟨c, r, rfl, hpos, hlt⟩ := hs.head
+  obtain ⟨h0, _, _⟩ := ascii_byte c.toNat hpos hlt
+  have hd := decode32_roundtrip false (c :: r)
+  have he : encode32 false (c :: r) = c.toNat.toUInt8 :: 0 :: 0 :: 0 :: encode32 false r := by
+    rw [encode32_cons, bytes32_ascii false _ hlt]; rfl
+  rw [he] at hd ⊢
+  apply decodeRaw_of_try32
+  rw [try32_le _ _ _ _ _ (length_encode32_mod false r) (fun hh => h0 hh.1) ⟨h0, rfl, rfl⟩]
+  exact hd
+
+theorem decodeRaw_utf32beBom (s : List Char) (_hs : A2lText s) :
+    decodeRaw (encode32 true (bom :: s)) = bom :: s := by
+  have hd := decode32_roundtrip true (bom :: s)
+  have he : encode32 true (bom :: s) = 0 :: 0 :: 0xFE :: 0xFF :: encode32 true s := by
+    rw [encode32_cons, bom_toNat, bytes32_bom true]; rfl
+  rw [he] at hd ⊢
+  apply decodeRaw_of_try32
+  rw [try32_be _ _ _ _ _ (length_encode32_mod true s) ⟨rfl, rfl, by decide⟩]
+  exact hd
+
+theorem decodeRaw_utf32leBom (s : List Char) (_hs : A2lText s) :
+    decodeRaw (encode32 false (bom :: s)) = bom :: s := by
+  have hd := decode32_roundtrip false (bom :: s)
+  have he : encode32 false (bom :: s) = 0xFF :: 0xFE :: 0 :: 0 :: encode32 false s := by
+    rw [encode32_cons, bom_toNat, bytes32_bom false]; rfl
+  rw [he] at hd ⊢
+  apply decodeRaw_of_try32
+  rw [try32_le _ _ _ _ _ (length_encode32_mod false s) (by decide) ⟨by decide, rfl, rfl⟩]
+  exact hd
+
+/-! ### BOM strip -/
+
+theorem stripBom_a2l (s : List Char) (hs : A2lText s) : stripBom s = s := by
+  obtain ⟨c, r, rfl, _, hlt⟩ := hs.head
+  have : c ≠ bom := by
+    intro h; rw [h, bom_toNat] at hlt; omega
+  simp only [stripBom, if_neg this]
+
+theorem stripBom_bom (s : List Char) : stripBom (bom :: s) = s := by
+  simp only [stripBom, if_true]
+
 end A2l.Enc
